@@ -359,7 +359,7 @@ theorem call_spec (cfg : Cfg) (hw : cfg.wf = true) (s : St) (r : Ref) (hrel : Re
               simp only [hm', decide_false, Bool.false_eq_true, if_false]
               rw [e2]; exact hcl'
           · simp [eventOk, noSwallow, cooldownRespected, filterRespected, recovers, gwTried, hopen', hroute, hg, GwOut.failed]
-        | errHdr =>
+        | errHdr v =>
           simp only [directLeg, List.cons_append, List.nil_append]
           obtain ⟨e1, e2, e3, e4⟩ := onError_spec cfg { cnt := s1.cnt, ok := true, start := s1.start, now := s1.now, cache := cache }
           simp only at e1 e2 e3 e4
